@@ -251,6 +251,10 @@ func (f *FnEnc) builtin(fr *Frame, st *State, R string, in ssa.Value, b *ssa.Bui
 			return v, true
 		}
 	case "copy":
+		f.guardedElems(fr, st, R, args[0].L[0], call.Pos(), "write")
+		if !isString(args[1].T) {
+			f.guardedElems(fr, st, R, args[1].L[0], call.Pos(), "read")
+		}
 		return Val{T: rt, L: []string{f.copyOp(st, R, args[0], args[1])}}, true
 	case "append":
 		return f.appendOp(st, R, args[0], args[1], rt), true
